@@ -2,9 +2,13 @@
 C13 — LDM queries return exactly the matching objects, identically on both back-ends.
 Property theorems only.  Implementation model: FlexModel/Ldm/Filter.lean (repaired code: DictionaryDataBase.search,
 TinyDB.search, LDMService.query / order_search_results); specification: FlexModel/Ldm/Query.lean;
-lemmas: FlexModel/Ldm/QueryLemmas.lean.
+lemmas: FlexModel/Ldm/QueryLemmas.lean.  Last section (round 4): histories made by several THREADS on the in-memory
+back-end, FlexModel/Ldm/QueryConc.lean over the generic scheduler FlexModel/Conc/Sched.lean, lock sections read from the
+source (Generated/LdmSections.lean).
 -/
 import FlexModel.Ldm.QueryLemmas
+import FlexModel.Ldm.QueryConc
+import Generated.LdmSections
 
 namespace Props.C13
 open FlexModel.Ldm FlexModel.Ldm.Spec
@@ -295,5 +299,70 @@ example : Scaled (fun _ r => rankIn ([camRole "default", camRole "publicTranspor
   intro r hr
   simp only [List.mem_cons, List.mem_nil_iff, or_false] at hr
   rcases hr with h | h | h <;> subst h <;> decide
+
+/-! ## the same objects for the same history - when several threads make the history (round 4)
+
+The in-memory back-end is used by provider threads (insert / update), the maintenance thread (remove by value, remove by
+id) and consumer threads (search) at once.  "The same history of operations" then means: SOME sequential order of the
+calls that respects every thread's own order; the theorems say the store, the ids and every call's result are those of
+such an order, for every schedule - PROVIDED every method is one lock section, which is read from the source. -/
+section Conc
+open FlexModel.Ldm.QueryConc FlexModel.Conc
+
+/-- **db_methods_single_section** (regenerated obligation, `Generated.LdmSections.dbUnits`: an `ast` pass over
+dictionary_database.py): each of insert / update / remove / remove_by_id / all / search is exactly ONE `with self._lock`
+section containing all its accesses to the store and the id allocator, nothing outside.  Splitting a section (lookup
+under the lock, deletion under the lock again) or moving an access out re-opens this. -/
+theorem db_methods_single_section : Atomic Generated.LdmSections.dbUnits := by decide
+
+/-- **concurrent_history_is_sequential** — any number of threads, any lists of calls, ANY schedule: the state (stored
+objects in store order, id allocator, results of the completed calls) is the result of executing sequential calls one
+after the other; per thread, the calls executed so far followed by some rest are its calls in its order, and all of them
+once the run is finished. -/
+theorem concurrent_history_is_sequential {V : Type} [DecidableEq V] (s0 : St V) (threads : List (List (Call V)))
+    (sched : List ThreadId) :
+    ∃ tr : List (ThreadId × (St V → St V)),
+      (run (sys Generated.LdmSections.dbUnits s0 threads) sched).sh = applyAll tr s0 ∧
+      (∀ u, ∃ rest, tracedBy u tr ++ rest = (threads.getD u []).map blockOf) ∧
+      (finished (run (sys Generated.LdmSections.dbUnits s0 threads) sched) = true →
+        ∀ u, tracedBy u tr = (threads.getD u []).map blockOf) :=
+  db_linearizable _ db_methods_single_section s0 threads sched
+
+/-- **concurrent_calls_serial** — two concurrent calls end in the state of one of their two serial orders -/
+theorem concurrent_calls_serial {V : Type} [DecidableEq V] (s0 : St V) (a b : Call V) (sched : List ThreadId)
+    (hfin : finished (run (sys Generated.LdmSections.dbUnits s0 [[a], [b]]) sched) = true) :
+    (run (sys Generated.LdmSections.dbUnits s0 [[a], [b]]) sched).sh = blockOf b (blockOf a s0) ∨
+    (run (sys Generated.LdmSections.dbUnits s0 [[a], [b]]) sched).sh = blockOf a (blockOf b s0) :=
+  two_calls_serial _ db_methods_single_section s0 a b sched hfin
+
+/-- **update_racing_removal_keeps_fresh** — the maintenance thread removes the previous version of an object (by
+value) while its provider stores a fresh version under the same id: under every schedule, once both calls are over,
+the fresh object is stored under that id and every search whose predicate it satisfies returns it. -/
+theorem update_racing_removal_keeps_fresh {V : Type} [DecidableEq V] (s0 : St V) (k : Nat) (old fresh : V) (hne : fresh ≠ old)
+    (sa sb : Nat) (sched : List ThreadId)
+    (hfin : finished (run (sys Generated.LdmSections.dbUnits s0 [[(sa, .remove old)], [(sb, .update k fresh)]]) sched) = true)
+    (p : V → Bool) (hp : p fresh = true) :
+    lookup (run (sys Generated.LdmSections.dbUnits s0 [[(sa, .remove old)], [(sb, .update k fresh)]]) sched).sh.db.rows k
+      = some fresh ∧
+    ∃ l, (apply (.search p)
+        (run (sys Generated.LdmSections.dbUnits s0 [[(sa, .remove old)], [(sb, .update k fresh)]]) sched).sh.db).2 = .objs l ∧
+      fresh ∈ l := by
+  have h := fresh_survives _ db_methods_single_section s0 k old fresh hne sa sb sched hfin
+  exact ⟨h, search_returns_stored _ k fresh p h hp⟩
+
+/-- non-vacuity and witness.  One-section `remove`: the schedule "removal first, update second" is finished and keeps the
+fresh object 21.  Two-section `remove` (lookup section ; deletion section that pops the key found earlier): under the
+schedule lookup ; update ; deletion both calls report success and the FRESH object is gone - a state neither serial
+order produces (both keep 21 under id 1). -/
+theorem split_remove_loses_update :
+    (finished (run (sys oneFacts demoSt demoThreads) [0, 0, 0, 1, 1, 1]) = true ∧
+      lookup (run (sys oneFacts demoSt demoThreads) [0, 0, 0, 1, 1, 1]).sh.db.rows 1 = some 21) ∧
+    (finished (run (sys splitFacts demoSt demoThreads) demoSched) = true ∧
+      (run (sys splitFacts demoSt demoThreads) demoSched).sh.db.rows = [(0, 10)] ∧
+      (run (sys splitFacts demoSt demoThreads) demoSched).sh.out = [(1, .ok true), (0, .ok true)]) ∧
+    lookup (blockOf (1, .update 1 21) (blockOf (0, .remove 20) demoSt)).db.rows 1 = some 21 ∧
+    lookup (blockOf (0, .remove 20) (blockOf (1, .update 1 21) demoSt)).db.rows 1 = some 21 := by decide
+
+end Conc
 
 end Props.C13
